@@ -141,7 +141,8 @@ static void check_bytes(const uint8_t *b, size_t n, const char *label)
     if (!check_bytes_once(b, n, true)) {
         char w1[300];
         snprintf(w1, sizeof w1, "%s", why);
-        if (check_bytes_once(b, n, false) || strcmp(w1, why)) vf_die("cxx violation did not reproduce (%s | %s)", w1, why);
+        if (check_bytes_once(b, n, false)) vf_die("cxx violation did not reproduce (%s)", w1);
+        if (strcmp(w1, why)) snprintf(why, sizeof why, "%.230s [details vary from run to run with identical inputs]", w1);
         report();
     }
 }
@@ -277,7 +278,8 @@ static void check_tree(const vf_doc *d, const char *label)
     if (!check_tree_once(d, true)) {
         char w1[300];
         snprintf(w1, sizeof w1, "%s", why);
-        if (check_tree_once(d, false) || strcmp(w1, why)) vf_die("cxx tree violation did not reproduce");
+        if (check_tree_once(d, false)) vf_die("cxx tree violation did not reproduce");
+        if (strcmp(w1, why)) snprintf(why, sizeof why, "%.230s [details vary from run to run with identical inputs]", w1);
         report();
     }
 }
